@@ -17,8 +17,9 @@ type C04Case struct {
 	GoTypes map[string]map[string]string `json:"go_types,omitempty"`
 	Type    string                       `json:"type"` // inner | left | right
 	On      *sq.E                        `json:"on"`
-	OnAlt   *sq.E                        `json:"on_alt"` // same condition, conjuncts shuffled / operands flipped
-	Reps    int                          `json:"reps"`   // repetitions of PARALLEL variants
+	OnAlt   *sq.E                        `json:"on_alt"`        // same condition, conjuncts shuffled / operands flipped
+	Reps    int                          `json:"reps"`          // repetitions of PARALLEL variants
+	Env     Envelope                     `json:"env,omitempty"` // irrelevant options / table representation / history (never Wrapped: joins name two tables)
 }
 
 func init() {
@@ -34,13 +35,23 @@ func init() {
 			"for outer joins, >=1 unmatched preserved row.",
 		Assumptions: []string{
 			"no NULL join keys; each key column holds one scalar kind on both sides",
+			"a third of the cases run the composed query inside an envelope that must not change the result: PostgresEscapingDialect / IdiomaticArrays on (no double quotes or brackets in the text), tables handed over as []map[string]any, a second execution on the same input object, and the same text run before on a different document",
 			"explicit HASH_JOIN spellings only with a pure equi-conjunction ON; STRAIGHT_JOIN only inner",
 			"an absent alias key in an unmatched outer row is accepted as NULL",
 			"thread schedules of PARALLEL variants are whatever the Go scheduler yields under repetition (and under -race in the race shard)",
 		},
-		Gen:          genC04,
-		New:          func() any { return &C04Case{} },
-		Check:        func(c any) Result { return checkC04(c.(*C04Case)) },
+		Gen: func(t *rapid.T) any {
+			c := genC04(t).(*C04Case)
+			c.Env = genEnvelope(t, "env")
+			c.Env.Wrapped = false
+			return c
+		},
+		New: func() any { return &C04Case{} },
+		Check: func(c any) Result {
+			r := checkC04(c.(*C04Case))
+			r.Labels = append(r.Labels, c.(*C04Case).Env.Labels()...)
+			return r
+		},
 		Quick:        1200,
 		Thorough:     60000,
 		RaceQuick:    60,
@@ -350,7 +361,7 @@ func checkC04(c *C04Case) Result {
 		reps = 1
 	}
 	run := func(sql string, label string) string {
-		out := Run(typedDoc(c.Doc, c.GoTypes), sql, Opts{})
+		out := c.Env.Exec(typedDoc(c.Doc, c.GoTypes), sql)
 		res.Execs++
 		if !out.OK() {
 			return fmt.Sprintf("%s\n  expected multiset %s\n  got %s", sql, val.JSON(want), out.Describe())
